@@ -6,50 +6,9 @@
 import BufrModel.Msg.TableDef
 import BufrModel.Lemmas.PathDigits
 import BufrModel.Lemmas.TableDefExtract
-namespace Bufr.C20
-open Bufr Bufr.TableDef Bufr.PathLang
-
+import BufrModel.Lemmas.TableDefSrc
+import BufrModel.Lemmas.TableDefMerge
 /-! ## 1. extended lookup -/
-
-theorem foldl_insertB_b (l : List (Nat × Elem)) (T : Tables) (id : Nat) :
-    (l.foldl insertB T).b id = (lookupLast l id).orElse (fun _ => T.b id) := by
-  induction l generalizing T with
-  | nil => rfl
-  | cons p rest ih =>
-    rw [List.foldl_cons, ih, lookupLast]
-    cases lookupLast rest id with
-    | some v => rfl
-    | none =>
-      by_cases h : id = p.1
-      · simp [Option.orElse, insertB, h]
-      · have h' : ¬ p.1 = id := fun e => h e.symm
-        simp [Option.orElse, insertB, h, h']
-
-theorem foldl_insertB_d (l : List (Nat × Elem)) (T : Tables) : (l.foldl insertB T).d = T.d := by
-  induction l generalizing T with
-  | nil => rfl
-  | cons p rest ih => rw [List.foldl_cons, ih]; rfl
-
-theorem foldl_insertD_d (l : List (Nat × List Nat)) (T : Tables) (id : Nat) :
-    (l.foldl insertD T).d id = (lookupLast l id).orElse (fun _ => T.d id) := by
-  induction l generalizing T with
-  | nil => rfl
-  | cons p rest ih =>
-    rw [List.foldl_cons, ih, lookupLast]
-    cases lookupLast rest id with
-    | some v => rfl
-    | none =>
-      by_cases h : id = p.1
-      · simp [Option.orElse, insertD, h]
-      · have h' : ¬ p.1 = id := fun e => h e.symm
-        simp [Option.orElse, insertD, h, h']
-
-theorem foldl_insertD_b (l : List (Nat × List Nat)) (T : Tables) : (l.foldl insertD T).b = T.b := by
-  induction l generalizing T with
-  | nil => rfl
-  | cons p rest ih => rw [List.foldl_cons, ih]; rfl
-
-end Bufr.C20
 
 namespace Bufr
 open Bufr.TableDef Bufr.C20
@@ -142,81 +101,7 @@ theorem C20_as_if_in_files (F es : Entries) (depth : Nat) (ids : List Nat) (fix 
 end Bufr
 
 /-! ## 3. `_fix_ncep_descriptors` -/
-namespace Bufr.C20
-open Bufr Bufr.TableDef
 
-mutual
-/-- no member-less replication anywhere in the tree -/
-def noBare : Desc → Bool
-  | .fixedRep _ ms => !ms.isEmpty && noBareL ms
-  | .delayedRep _ _ ms => !ms.isEmpty && noBareL ms
-  | .seq _ ms => noBareL ms
-  | _ => true
-def noBareL : List Desc → Bool
-  | [] => true
-  | d :: ds => noBare d && noBareL ds
-end
-
-theorem bareSingle_noBare {ms : List Desc} {r : Desc} (h : bareSingle ms = some r) : noBareL ms = false := by
-  have := bareSingle_eq h
-  subst this
-  unfold bareSingle at h
-  simp only at h
-  split at h
-  · rename_i hb
-    cases r <;> simp [isBareRep] at hb
-    all_goals (rename_i ms; cases ms <;> simp_all [noBareL, noBare])
-  · cases h
-
-theorem fixNcep_id (ds : List Desc) (h : noBareL ds = true) : fixNcep ds = .ok ds := by
-  fun_induction fixNcep ds <;> try (simp_all [noBareL, noBare]; done)
-  case case2 s ms rest r hb ih =>
-    have := bareSingle_noBare hb
-    simp [noBareL, noBare, this] at h
-  all_goals
-    simp only [noBareL, noBare, Bool.and_eq_true, Bool.true_and] at h
-    simp_all
-    rfl
-
-end Bufr.C20
-
-namespace Bufr.C20
-open Bufr Bufr.TableDef
-
-theorem seq_bare_fixed (s id : Nat) (rest : List Desc) :
-    fixNcep (.seq s [.fixedRep id []] :: rest) = fixNcep (.fixedRep id [] :: rest) := by
-  conv => lhs; unfold fixNcep
-  simp [bareSingle, isBareRep]
-theorem seq_bare_delayed (s id : Nat) (f : Desc) (rest : List Desc) :
-    fixNcep (.seq s [.delayedRep id f []] :: rest) = fixNcep (.delayedRep id f [] :: rest) := by
-  conv => lhs; unfold fixNcep
-  simp [bareSingle, isBareRep]
-theorem bare_fixed_cons (id : Nat) (d : Desc) (rest : List Desc) (hx : xOf id = 1) :
-    fixNcep (.fixedRep id [] :: d :: rest) =
-      (do let ms ← fixNcep [d]; let tl ← fixNcep rest; pure (.fixedRep id ms :: tl)) := by
-  conv => lhs; unfold fixNcep
-  simp [hx]
-theorem bare_delayed_cons (id : Nat) (f d : Desc) (rest : List Desc) (hx : xOf id = 1) :
-    fixNcep (.delayedRep id f [] :: d :: rest) =
-      (do let ms ← fixNcep [d]; let tl ← fixNcep rest; pure (.delayedRep id f ms :: tl)) := by
-  conv => lhs; unfold fixNcep
-  simp [hx]
-theorem bare_fixed_badX (id : Nat) (rest : List Desc) (hx : xOf id ≠ 1) :
-    fixNcep (.fixedRep id [] :: rest) = .error .other := by
-  conv => lhs; unfold fixNcep
-  simp [hx]
-theorem bare_delayed_badX (id : Nat) (f : Desc) (rest : List Desc) (hx : xOf id ≠ 1) :
-    fixNcep (.delayedRep id f [] :: rest) = .error .other := by
-  conv => lhs; unfold fixNcep
-  simp [hx]
-theorem bare_fixed_last (id : Nat) : fixNcep [.fixedRep id []] = .error .other := by
-  conv => lhs; unfold fixNcep
-  simp
-theorem bare_delayed_last (id : Nat) (f : Desc) : fixNcep [.delayedRep id f []] = .error .other := by
-  conv => lhs; unfold fixNcep
-  simp
-
-end Bufr.C20
 
 namespace Bufr
 open Bufr.TableDef Bufr.C20
@@ -322,13 +207,13 @@ theorem C20_definitions_govern (T : Tables) (aVals : List Val) (bs : List BEntry
 
 /-- non-vacuity: the first Table B entry of tests/data/prepbufr.bufr (0-63-000 BYTCNT, 16 bits),
     CLAT (scale +2, reference -9000, 15 bits) and the replication-only sequence 3-60-001 -/
-def exB1 : BEntry := ⟨"063000".toList, "BYTCNT".toList, "BYTES".toList, 0, 0, 16⟩
-def exB2 : BEntry := ⟨"005002".toList, "CLAT     TABLE B ENTRY - LATITUDE".toList, "DEG N".toList, 2, -9000, 15⟩
-def exD1 : DEntry := ⟨"360001".toList, "DRP16BIT".toList, ["101000".toList, "031002".toList]⟩
+def c20ExB1 : BEntry := ⟨"063000".toList, "BYTCNT".toList, "BYTES".toList, 0, 0, 16⟩
+def c20ExB2 : BEntry := ⟨"005002".toList, "CLAT     TABLE B ENTRY - LATITUDE".toList, "DEG N".toList, 2, -9000, 15⟩
+def c20ExD1 : DEntry := ⟨"360001".toList, "DRP16BIT".toList, ["101000".toList, "031002".toList]⟩
 
-example : extract ncepTemplate (itemsOf [] [exB1, exB2] [exD1]) = .ok ([exB1, exB2], [exD1]) := by decide +kernel
+example : extract ncepTemplate (itemsOf [] [c20ExB1, c20ExB2] [c20ExD1]) = .ok ([c20ExB1, c20ExB2], [c20ExD1]) := by decide +kernel
 
-example : Encodable [] [exB1] [exD1] := by
+example : Encodable [] [c20ExB1] [c20ExD1] := by
   refine ⟨by decide, by decide, by decide, by decide, ?_, ?_⟩
   · intro e he
     simp only [List.mem_singleton] at he
@@ -343,10 +228,40 @@ example : Encodable [] [exB1] [exD1] := by
     · intro c hc; revert c; decide
     · intro c hc; revert c; decide
     · intro m hm
-      simp only [exD1, List.mem_cons, List.not_mem_nil, or_false] at hm
+      simp only [c20ExD1, List.mem_cons, List.not_mem_nil, or_false] at hm
       rcases hm with hm | hm <;> (subst hm; intro c hc; revert c; decide)
     · intro m hm
-      simp only [exD1, List.mem_cons, List.not_mem_nil, or_false] at hm
+      simp only [c20ExD1, List.mem_cons, List.not_mem_nil, or_false] at hm
       rcases hm with hm | hm <;> (subst hm; decide)
+
+end Bufr
+
+/-! ## 5. the by-source member resolution of `TableD` -/
+namespace Bufr
+open Bufr.TableDef Bufr.C20
+
+/-- `TableD.__init__` resolves the members of a sequence against the sources loaded so far (the
+    sequences of the table files keep the member objects they were built with; the extra entries are
+    one more source, processed last).  When no file sequence mentions a sequence id that the
+    definitions (re)define — always the case for the new ids 3-48-000 … 3-63-255 of the property —
+    this is the same template as the one built from the merged lookup `extend T es`, hence
+    (C20_as_if_in_files) the one built from files that contain the entries. -/
+theorem C20_by_source (T : Tables) (es : Entries) (depth : Nat) (ids : List Nat)
+    (h : NoBackRef T.d es.lookupD) :
+    buildSrc (extend T es).b [es.lookupD, T.d] depth ids = buildD (extend T es) depth ids :=
+  buildSrc_two _ T.d es.lookupD (extend T es) rfl (fun i => (C20_lookup_extended T es i).2) h depth ids
+
+-- non-vacuity of the hypothesis: file sequence 3-01-001 = [0-01-001], definitions add 3-48-001
+example :
+    NoBackRef (fun i => if i = 301001 then some [1001] else none)
+      (Entries.lookupD { d := [(348001, [301001, 48001])] }) := by
+  intro id ms h m hm
+  simp only at h
+  split at h
+  · cases h
+    simp only [List.mem_singleton] at hm
+    subst hm
+    decide
+  · cases h
 
 end Bufr
